@@ -122,9 +122,6 @@ func (p *packetizer) GeneratePadding(samples uint32) []*Packet {
 	packets := make([]*Packet, samples)
 
 	for i := 0; i < int(samples); i++ {
-		pp := make([]byte, 255)
-		pp[254] = 255
-
 		packets[i] = &Packet{
 			Header: Header{
 				Version:        2,
@@ -137,7 +134,7 @@ func (p *packetizer) GeneratePadding(samples uint32) []*Packet {
 				SSRC:           p.SSRC,
 				CSRC:           []uint32{},
 			},
-			Payload: pp,
+			PaddingSize: 255,
 		}
 	}
 
